@@ -7,6 +7,22 @@ CHECKS = {
    text="Bounded-exhaustive exploration of the real walk_node_for_targets / extract_target(s)_from_node: every program of the grammar-transcribed space Σ (all derivation paths up to length 2 quick / 3 thorough, every node kind in every parse-tree slot), every node of every program as search root, full / singleton / detector target sets, compared with an independent wildcard-free reference traversal. Right level: the property quantifies over tree shapes and positions, which is a finite space once the path length is bounded; the traversal's defects are local to one (parent, field) pair and show on minimal programs.",
    note="Trusted: solang-parser 0.1.18 (parse tree and locations), rustc exhaustiveness checking of the reference conversion. Bounded by path length; programs beyond it are not explored.",
    technique="bounded-exhaustive input-space enumeration (small-scope model checking) of the implementation against a reference traversal; generator traces validated against the parser"),
+ "C02": dict(engine="c02+refdet+layout", ref="7/C02, 6, 8",
+   text="(a) Exhaustive enumeration of all texts of length <= 6 (quick) / 8 (thorough) over {a, é, LF, CR, space} x every offset at which a token can start, plus all token offsets of Σ_small under the layout space Λ, through the real get_line_number, against 1 + #LF before the offset computed by the harness. (b) Σ x 30 detectors on the one-token-per-line layout: every reported line must be an admissible anchor (first token) of a construct the reference detectors know, never an interior token. The conversion is a function of (text, offset) whose defects are local (last line, CR, multi-byte), so a complete small alphabet decides it.",
+   note="Trusted: solang-parser locations; the harness's own line counting (1 + number of LF bytes). Bounded by text length and by Σ.",
+   technique="bounded-exhaustive enumeration of texts x offsets and of programs x detectors against a reference line model"),
+ "C04": dict(engine="c04", ref="7/C04",
+   text="Every parser-accepted program of Σ plus the totality alphabets (number literals of every size/exponent in every operand position, argument-less calls, pragma placements and shapes, declaration shapes, Unicode identifiers, counts 0..300, nesting 1..64) x all 30 detectors x two build profiles (overflow checks off/on), each profile in a child process under catch_unwind with a hang watchdog; a panic, abort, stack overflow or non-termination is a violation. Totality defects are local to one unwrap/index/parse site and are triggered by a small shape placed at that site, which the alphabets enumerate.",
+   note="Trusted: solang-parser (what 'accepted' means). Non-termination is detected by a 10 s watchdog per detector call.",
+   technique="bounded-exhaustive input-space enumeration under fault observation (panic / signal / hang) in two build profiles"),
+ "C05": dict(engine="refdet+csem", ref="7/C05, 5.3, 8.1-8.11",
+   text="Σ (every expression alternative and every idiom atom of section 8 in every syntactic hole, path length 2 quick / 3 thorough) plus the 2^k boundary family (k = 0..256, 2^k, 2^k±1, 2^k+2 in every operand position) x the 11 expression-level detectors, token-precise on the one-token-per-line layout, against three-valued reference detectors transcribed from section 8: every canonical occurrence must be reported, every report must be anchored at a canonical or gray occurrence.",
+   note="Trusted: the reference definitions of DESIGN.md section 8 (gray forms accepted either way), solang-parser. Bounded by path length.",
+   technique="bounded-exhaustive input-space enumeration of the implementation against three-valued reference detectors"),
+ "C17": dict(engine="c17+layout", ref="7/C17, 6",
+   text="Σ_small (thorough: plus thinned Σ_B(2)/Σ_A(1)) x the layout space Λ: 27 uniform layouts, 3 tight layouts, every single-gap deviation with each of 8 separators (blank, LF, CRLF, tab, blank lines, block/line comments with code-like text and multi-byte characters); thorough adds all gap pairs on programs of <= 25 tokens. For each detector the tokens flagged on the canonical layout must be exactly the tokens flagged in every layout, lines being recomputed by the harness; all 30 detectors run on the uniform layouts so that comment text can never create a finding.",
+   note="Trusted: the harness's line computation; every layout is re-parsed to validate token preservation. Comments are not placed inside pragma directives (lexer mode).",
+   technique="exhaustive enumeration of layouts with bounded deviations (0,1,2) from the default layout, differential oracle against the canonical layout"),
 }
 ALL = ["C%02d" % i for i in range(1, 20)]
 NOT_YET = "check not built yet in this revision of /verif (see DESIGN.md section 7 for the planned decision procedure)"
